@@ -219,6 +219,41 @@ def assignments_to(fi: FunctionInfo, name: str) -> list[tuple[ast.stmt, ast.expr
     return out
 
 
+def expr_guards(node: ast.AST) -> list[tuple[ast.expr, bool]]:
+    """Facts that hold whenever the sub-expression ``node`` is evaluated, contributed by the expressions it is
+    nested in (up to its statement): conditional expressions, short-circuit and/or, comprehension filters and
+    the test of the statement's own header when ``node`` sits in a later operand of it."""
+    out: list[tuple[ast.expr, bool]] = []
+    child = node
+    p = parent(child)
+    while p is not None and not isinstance(child, ast.stmt):
+        if isinstance(p, ast.IfExp):
+            if child is p.body:
+                out.extend(facts(p.test, True))
+            elif child is p.orelse:
+                out.extend(facts(p.test, False))
+        elif isinstance(p, ast.BoolOp) and child in p.values:
+            idx = p.values.index(child)
+            for v in p.values[:idx]:
+                out.extend(facts(v, isinstance(p.op, ast.And)))
+        elif isinstance(p, (ast.ListComp, ast.SetComp, ast.GeneratorExp, ast.DictComp)):
+            if child is getattr(p, "elt", None) or child is getattr(p, "key", None) or child is getattr(p, "value", None):
+                for g in p.generators:
+                    for c in g.ifs:
+                        out.extend(facts(c, True))
+        elif isinstance(p, ast.comprehension) and child in p.ifs:
+            for c in p.ifs[: p.ifs.index(child)]:
+                out.extend(facts(c, True))
+        child = p
+        p = parent(child)
+    return out
+
+
+def all_guards(cfg: CFG, node: ast.AST) -> list[tuple[ast.expr, bool]]:
+    """Statement-level dominating facts plus expression-level ones for a sub-expression."""
+    return list(cfg.guards(cfg.stmt_of(node))) + expr_guards(node)
+
+
 def describe(cfg: CFG, trail) -> list[str]:
     out = []
     m = cfg.fi.module
@@ -862,8 +897,7 @@ def _warning_names_target(call: ast.Call, fi: FunctionInfo) -> tuple[bool, str]:
 
 def _unknown_failure_idiom(cfg: CFG, en: Enumerator, call: ast.Call) -> str | None:
     """A warning on a path without marks: is it guarded by a test that looks like a failure test we do not model?"""
-    st = cfg.stmt_of(call)
-    for t, pol in cfg.guards(st):
+    for t, pol in all_guards(cfg, call):
         if isinstance(t, ast.Compare) and len(t.ops) == 1 and isinstance(t.ops[0], (ast.In, ast.NotIn)) and not en.is_registry(t.comparators[0]):
             return unparse(t)
         if isinstance(t, ast.Compare) and len(t.ops) == 1 and isinstance(t.ops[0], (ast.Is, ast.IsNot)) and not (isinstance(t.left, ast.Name)):
@@ -1033,6 +1067,16 @@ def _wrap_ctor(call: ast.Call, fi: FunctionInfo) -> str | None:
     return None
 
 
+def _wrap_ctor_expr(val: ast.expr, fi: FunctionInfo) -> str | None:
+    """Constructor name(s) if ``val`` is a wrap-node constructor call or a conditional expression of such calls."""
+    if isinstance(val, ast.Call):
+        return _wrap_ctor(val, fi)
+    if isinstance(val, ast.IfExp):
+        a, b = _wrap_ctor_expr(val.body, fi), _wrap_ctor_expr(val.orelse, fi)
+        return "/".join(sorted({a, b})) if a and b else None
+    return None
+
+
 @rule("C12.R1")
 def r1_classification_totality(corpus: Corpus, rep: Report, tier: str):
     rep.rule("C12.R1", "every path of the Sphinx link handlers (and the dispatcher) hands the link to exactly one sink; the wrap node is fresh; explicit text is rendered beneath it")
@@ -1115,7 +1159,7 @@ def r1_classification_totality(corpus: Corpus, rep: Report, tier: str):
             defs = assignments_to(fi, a.id)
             kinds = []
             for st, val, pos in defs:
-                kinds.append(_wrap_ctor(val, fi) if (isinstance(val, ast.Call) and pos is None) else None)
+                kinds.append(_wrap_ctor_expr(val, fi) if pos is None else None)
             if defs and all(kinds):
                 rep.ok("C12.R1", k, fi.module.site(call), f"{len(defs)} binding(s): {', '.join(sorted(set(kinds)))}")
             else:
@@ -1476,10 +1520,10 @@ def _reader_attrs(corpus: Corpus, fi: FunctionInfo, var: str, ctx: str, seen: se
     def ctx_at(node) -> str:
         c = ctx
         try:
-            st = cfg.stmt_of(node)
+            gs = all_guards(cfg, node)
         except Unsupported:
             return c
-        for t, pol in cfg.guards(st):
+        for t, pol in gs:
             if isinstance(t, ast.Compare) and len(t.ops) == 1 and isinstance(t.ops[0], (ast.Eq, ast.NotEq)):
                 l, r = local_value(t.left), local_value(t.comparators[0])
                 if is_domain_read(r) and isinstance(l, ast.Constant):
@@ -1511,11 +1555,11 @@ def _reader_attrs(corpus: Corpus, fi: FunctionInfo, var: str, ctx: str, seen: se
 
     def has_key_guard(node) -> bool:
         try:
-            st = cfg.stmt_of(node)
+            gs = all_guards(cfg, node)
         except Unsupported:
             return False
-        for t, pol in cfg.guards(st):
-            if pol and isinstance(t, ast.Compare) and len(t.ops) == 1 and isinstance(t.ops[0], ast.In) and isinstance(t.left, ast.Constant) and t.left.value == node.slice.value and isinstance(t.comparators[0], ast.Name) and t.comparators[0].id == var:
+        for t, pol in gs:
+            if isinstance(t, ast.Compare) and len(t.ops) == 1 and ((pol and isinstance(t.ops[0], ast.In)) or (not pol and isinstance(t.ops[0], ast.NotIn))) and isinstance(t.left, ast.Constant) and t.left.value == node.slice.value and isinstance(t.comparators[0], ast.Name) and t.comparators[0].id == var:
                 return True
         return False
 
